@@ -23,7 +23,7 @@ MANIFEST = {
             "frames (restart formats: every non-empty subset of the numbered files pre-existing, and the base name pre-existing) x "
             "{save, open+write} x force_overwrite {False, True} is executed. False must raise and leave every pre-existing "
             "path byte-identical; True must leave exactly what the same call writes into an empty directory (size and "
-            "loaded content; bytes where no timestamp is embedded). Bystander layer: a write to a NEW name (held in a variable / a temporary of the call expression / with allocations between open and write) must leave the working directory, the target directory and a sibling directory untouched. Read-only clause: load, load_frame, iterload, "
+            "loaded content; bytes where no timestamp is embedded). Bystander layer: a write to a NEW name (held in a variable / a temporary of the call expression / with allocations between open and write) must leave the working directory, the target directory and a sibling directory untouched; the same relative name written from two working directories in one process must not touch the first directory's file. Read-only clause: load, load_frame, iterload, "
             "md.open('r')+read/seek/tell/len, load_topology on every readable format incl. the repository's topology "
             "files leave sha256 unchanged. Exhaustive over the listed axes.",
     "note": "New sibling files created before a refusal (e.g. name.1 written before name.2 clashes) are recorded, not "
@@ -330,6 +330,73 @@ def bystander_isolated(args):
     return [(tag + "|" + st, "the write %s: %s" % ("crashed the interpreter" if st == "crash" else st, str(val)[:160]), rep)], tag
 
 
+def relative_case(args):
+    """The same RELATIVE name written from two working directories in one process: the second write must create its file
+    in the second directory and leave the first directory's file of that name alone (a writer that resolves relative
+    names itself must do so at the time of the call)."""
+    ext, entry, nfr, seed, scratch = args
+    _quiet()
+    import mdtraj as md
+    from vlib.refmodels import writers
+    rep = {"kind": "relative", "ext": ext, "entry": entry, "nfr": nfr}
+    tag = "%s|%s|relative-name|two-working-directories|%s" % (ext, entry, "multi" if nfr > 1 else "single")
+    d = os.path.join(scratch, "r_" + hashlib.md5(repr(args[:3]).encode()).hexdigest()[:12])
+    shutil.rmtree(d, ignore_errors=True)
+    out = []
+    old = os.getcwd()
+    name = "Rel_Mixed.Case." + ext
+    try:
+        for sub in ("project_a", "project_b"):
+            os.makedirs(os.path.join(d, sub))
+        errs = []
+        snap_a = None
+        for k, sub in enumerate(("project_a", "project_b")):
+            os.chdir(os.path.join(d, sub))
+            t = _traj(nfr, 4, seed + k, shift=float(k))
+            try:
+                if entry == "save":
+                    t.save(name, force_overwrite=False)
+                else:
+                    f = md.open(name, "w", force_overwrite=False)
+                    try:
+                        if ext in RESTART:
+                            f.write(coordinates=t.xyz * 10, time=t.time[0], cell_lengths=t.unitcell_lengths * 10, cell_angles=t.unitcell_angles)
+                        else:
+                            writers.write_block(f, WRITER_FMT.get(ext, ext), t, 0, nfr, first=True)
+                    finally:
+                        f.close()
+            except Exception as e:  # noqa
+                errs.append((sub, e))
+            if k == 0:
+                snap_a = _snapshot(os.path.join(d, "project_a"))
+        os.chdir(old)
+        after_a = _snapshot(os.path.join(d, "project_a")) if os.path.isdir(os.path.join(d, "project_a")) else {}
+        for n, h in (snap_a or {}).items():
+            if after_a.get(n) != h:
+                out.append((tag + "|first-directory-modified", "project_a/%s %s by a write of the same relative name from project_b" % (
+                    n, "was removed" if n not in after_a else "changed"), rep))
+        for sub, e in errs:
+            out.append((tag + "|raised", "writing %s in %s raised %s: %s" % (name, sub, type(e).__name__, str(e)[:100]), rep))
+        if not errs:
+            for sub in ("project_a", "project_b"):
+                if not all(os.path.exists(x) for x in _targets(os.path.join(d, sub, name), ext, nfr)):
+                    out.append((tag + "|no-output", "%s/%s does not exist after the write" % (sub, name), rep))
+    finally:
+        os.chdir(old)
+        shutil.rmtree(d, ignore_errors=True)
+    return out, tag
+
+
+def relative_isolated(args):
+    from vlib.iso import isolated
+    st, val = isolated(lambda: relative_case(args), timeout=180)
+    if st == "ok":
+        return val
+    ext, entry, nfr = args[:3]
+    tag = "%s|%s|relative-name|two-working-directories|%s" % (ext, entry, "multi" if nfr > 1 else "single")
+    return [(tag + "|" + st, "the writes %s: %s" % (st, str(val)[:160]), {"kind": "relative", "ext": ext, "entry": entry, "nfr": nfr})], tag
+
+
 def read_case(args):
     kind, name, seed, scratch, repo = args
     import mdtraj as md
@@ -437,6 +504,13 @@ def run(ctx):
         bn += 1
         if not viol:
             distinct.add(tag)
+    reljobs = [(ext, entry, nfr, ctx.seed, ctx.scratch) for ext in SAVE_EXTS for entry in ("save", "open") for nfr in (1, 3)
+               if not (entry == "open" and ext in RESTART and nfr > 1)]
+    for viol, tag in ctx.pmap(relative_isolated, reljobs):
+        ctx.report(viol)
+        bn += 1
+        if not viol:
+            distinct.add(tag)
     rjobs = [("gen", e, ctx.seed, ctx.scratch, ctx.repo) for e in READ_EXTS] + \
             [("repo", f, ctx.seed, ctx.scratch, ctx.repo) for f in TOPFILES]
     routs = ctx.pmap(read_case, rjobs)
@@ -462,7 +536,10 @@ def run(ctx):
 
 
 def replay(ctx, rep):
-    if rep["kind"] == "bystander":
+    if rep["kind"] == "relative":
+        a = relative_case((rep["ext"], rep["entry"], rep["nfr"], ctx.seed, ctx.scratch))[0]
+        b = relative_case((rep["ext"], rep["entry"], rep["nfr"], ctx.seed, ctx.scratch))[0]
+    elif rep["kind"] == "bystander":
         a = bystander_case((rep["ext"], rep["entry"], rep["held"], rep["nfr"], ctx.seed, ctx.scratch))[0]
         b = bystander_case((rep["ext"], rep["entry"], rep["held"], rep["nfr"], ctx.seed, ctx.scratch))[0]
     elif rep["kind"] == "write":
